@@ -124,6 +124,8 @@ Explains(r) ==
             /\ LET b == BinGiven(c, p, r.view, r.tang, same) IN
                IF b = NoBin THEN ~r.ok ELSE r.ok /\ b = BinOfRec(r)
     [] r.e = "BP" -> PairsExplain(c, BinOfRec(r), r, r.spatialOnly)
+    \* the same question answered into a container that the caller re-uses from bin to bin: same answer
+    [] r.e = "BPR" -> PairsExplain(c, BinOfRec(r), r, r.spatialOnly)
     [] r.e = "BD" -> Assigned(<< r.d1, r.r1, r.d2, r.r2, r.t >>, BinOfRec(r))
     [] r.e = "BN" -> r.n = NumPairsExact(c, BinOfRec(r), r.spatialOnly)
     [] r.e = "SetRejected" -> ~(DescOk(r.prev) /\ SetArgsOk(CfgOf(r.prev), r.what, r.x, r.y))
@@ -175,7 +177,7 @@ Classify(r, cc) ==
   \* C01-eventofmash: data with an even TOF mashing factor m, central TOF bin: m timing positions counted instead of m - 1
   ELSE IF r.e = "BN" /\ cc.tofMash > 0 /\ cc.tofMash % 2 = 0 /\ ~r.spatialOnly /\ r.tof = 0 /\ r.seg \in Segs(cc) /\ r.n = NumPairs(cc, BinOfRec(r), FALSE) THEN "C01-eventofmash"
   ELSE IF r.e \in {"RP", "PB"} /\ (\E s \in TruncSegs(cc) : Abs(r.r2 - r.r1) = Abs(SegMinRD(cc, s))) THEN "C01-truncseg"
-  ELSE IF r.e \in {"RPS", "BP", "BD", "BN", "SubBP"} /\ r.seg \in TruncSegs(cc) THEN "C01-truncseg"
+  ELSE IF r.e \in {"RPS", "BP", "BPR", "BD", "BN", "SubBP"} /\ r.seg \in TruncSegs(cc) THEN "C01-truncseg"
   ELSE "new"
 
 Init == l = 1 /\ c = NoCfg /\ sv = <<>> /\ bad = <<>>
